@@ -493,6 +493,14 @@ def fmt_term(t, depth=0):
     return k + "(" + ", ".join(fmt_term(x) for x in t[1:]) + ")"
 
 
+def _all_subterms(t):
+    if isinstance(t, tuple):
+        yield t
+        for x in t:
+            if isinstance(x, tuple):
+                yield from _all_subterms(x)
+
+
 def expand_calls(unit, t, depth=0):
     """replace calls of pure expression functions of the fact base (a body that is one `return e;`, e.g. PGM_SUB_EPS
     written as a constexpr function instead of a macro) by their body with the arguments substituted"""
@@ -501,8 +509,13 @@ def expand_calls(unit, t, depth=0):
     t = tuple(expand_calls(unit, x, depth) for x in t)
     if t and t[0] == 'call' and len(t) >= 3 and isinstance(t[1], str) and (len(t) < 4 or t[3] is None):
         for f in unit.by_tname.get(t[1], []):
-            if len(f.params) == len(t[2]) and not f.record:
-                body = f.pure_return()
+            if len(f.params) != len(t[2]):
+                continue
+            body = f.pure_return()
+            # free functions, and member functions whose one-expression body does not touch the object (static helpers)
+            if f.record and (body is None or any(isinstance(x, tuple) and x == ('this',) for x in _all_subterms(body))):
+                continue
+            if True:
                 if body is not None:
                     sub = {('param', p['name']): a for p, a in zip(f.params, t[2])}
 
@@ -513,4 +526,35 @@ def expand_calls(unit, t, depth=0):
                             return tuple(rep(y) for y in x)
                         return x
                     return expand_calls(unit, rep(body), depth + 1)
+    return t
+
+
+def resolve_calls(unit, t, depth=0, containing=('std::lower_bound', 'std::upper_bound', 'std::binary_search', 'std::equal_range')):
+    """replace a call of a function of the fact base that has exactly one return statement (its single-definition locals looked
+    through) by the returned expression with the arguments substituted: a helper extracted from a query is still the query"""
+    if not isinstance(t, tuple) or depth > 4:
+        return t
+    t = tuple(resolve_calls(unit, x, depth, containing) if isinstance(x, tuple) else x for x in t)
+    if t and t[0] == 'call' and len(t) >= 3 and isinstance(t[1], str) and t[1].startswith('pgm::'):
+        for f in unit.by_tname.get(t[1], []):
+            if len(f.params) != len(t[2]):
+                continue
+            rets = [r for r in f.returns() if f.n(r)['ch']]
+            if len(rets) != 1:
+                continue
+            body = f.term(f.n(rets[0])['ch'][0], inline=True)
+            # only helpers that wrap a search are looked through; other functions (encode, ...) stay opaque symbols
+            if containing and not any(isinstance(x, tuple) and x and x[0] == 'call' and x[1] in containing for x in _all_subterms(body)):
+                continue
+            sub = {('param', p['name']): a for p, a in zip(f.params, t[2])}
+
+            def rep(x):
+                if isinstance(x, tuple):
+                    if x in sub:
+                        return sub[x]
+                    if x == ('this',) and len(t) > 3 and t[3] is not None:
+                        return t[3]
+                    return tuple(rep(y) for y in x)
+                return x
+            return resolve_calls(unit, rep(body), depth + 1, containing)
     return t
